@@ -78,7 +78,12 @@ def sig_c11(f):
             return "matrix-ref:resolved-list-written-into-shared-row"
         return "defs:shared-definition-changed:" + ",".join(sorted(set(c.split("/")[-1] for c in ch))[:4])
     if k == "R_n_other":
-        return "ni:unexplained:parallel=%s:tasks=%s" % (inp.get("parallel"), len(inp.get("tasks") or []))
+        # which of the target's outputs differ between the alone run and the in-context run
+        a, c = inp.get("alone") or {}, inp.get("ctx") or {}
+        diff = "+".join(x for x in ("vars", "env", "items", "defers") if a.get(x) != c.get(x)) or "none"
+        tgt = (inp.get("tasks") or [{}])[inp.get("target") or 0] if inp.get("tasks") else {}
+        kind = "defer-caller" if tgt.get("dfr") else "called-with-vars" if tgt.get("leaf") else "matrix-caller" if tgt.get("caller") else "plain"
+        return "ni:alone-differs-from-in-context:%s:target=%s:concurrent=%s" % (diff, kind, bool(inp.get("parallel")) or inp.get("combine") == "deps")
     if k == "R_n_agree":
         return "ni:model-disagrees-with-implementation"
     return "ni:" + k
@@ -101,7 +106,7 @@ PROPS = {
                                "R_v_snapshot": "mon", "R_v_leak": "mon", "R_v_eager": "mon", "R_v_osfirst": "mon", "R_v_cache": "mon",
                                "R_v_other": "mon", "R_e_mon": "mon"})],
         signature=sig_c10,
-        rule="cases: (v) one name defined at a subset of the sites {OS env, root vars, CLI NAME=value, include-statement vars, included-Taskfile vars, call vars, task vars, special-variable name} "
+        rule="cases: (v) one name defined at a subset of the sites {OS env, root vars, CLI NAME=value, include-statement vars, included-Taskfile vars, call vars, task vars, special-variable name (with literal values all of TASK, ALIAS, TASK_DIR, ROOT_DIR, ROOT_TASKFILE, TASKFILE, TASKFILE_DIR, USER_WORKING_DIR are defined and probed at once)} "
              "for a task at include depth 0/1/2; shards 0-2 enumerate all 256 subsets with literal values per depth, later shards draw subsets with value kinds literal / template of the same or another name / sh: / ref:; "
              "(e) one name at a subset of {OS, global env, global dotenv x2, task dotenv x2, task env} with and without TASK_X_ENV_PRECEDENCE=1, shard 3 enumerates all 128x2 with literal values, shard 4 the same with the env: entries written as sh: commands. "
              "Each case is a Taskfile tree on disk run by the real task binary; probes print {{.N}} / $N. "
@@ -123,7 +128,7 @@ PROPS = {
                                "R_n_own_dir": "mon", "R_n_own_env": "mon", "R_n_own_dirlate": "mon", "R_n_dirlate": "mon", "R_n_defs": "mon"})],
         signature=sig_c11,
         rule="cases: a generated root Taskfile with 2-4 tasks (dir: one of three, sh: variables / env entries with equal text 'pwd', 'echo x$VR', 'echo s$TASK', 'echo y$VQ', callers of a for: matrix: ref task with different lists, callers of a task with two templated defer: entries (a command and a task call) with different vars, "
-             "Taskfile-level vars / env that refer to the per-task special variables TASK / ALIAS as template, as sh: reading $TASK and as sh: whose TEXT is a template, task-level sh: vars with templated text); "
+             "task-level dotenv: with one relative file name in three directories, a Taskfile-level env entry templated over a call variable, Taskfile-level vars / env that refer to the per-task special variables TASK / ALIAS as template, as sh: reading $TASK and as sh: whose TEXT is a template, task-level sh: vars with templated text); "
              "the target task is run alone in a fresh Executor and after (or, Parallel, together with) a random prefix of the other tasks in ONE Executor - by one Run call, or through a combining task with cmds:, a for: loop or (concurrently) deps: -; probe lines incl. the output of deferred commands compared (mon_same), "
              "every variable (value, sh: text, ref) of the Taskfile-level and per-task var/env/include blocks and of call vars, matrix rows and every field of the defer: entries of the shared task definitions dumped before and after (mon_defs), alone values compared with the shell's value in the task's own dir/env (own). "
              "agree: model E's compile_seq with the extracted cache key and matrix-write fact reproduces both runs (parallel: every printed value is that of some order). "
